@@ -32,6 +32,14 @@ exprs = list(nodeio.parse_smtlib(open(A.outfile).read()))
 smtlib.collect_information(exprs)
 passes = sh.get_passes()
 last, params = sh.get_pass(passes, len(passes) - 1)
+# the mutators enabled for this input and these options, independently of the pass lists: every class of every theory
+# whose option is on (the property: the result is a fixed point of EVERY enabled mutator)
+enabled_all = []
+for _th, (_mod, _names) in mutators.get_all_mutators().items():
+    for _cls, _opt in _names.items():
+        if getattr(A, 'mutator_' + _opt.replace('-', '_'), True):
+            enabled_all.append(getattr(_mod, _cls)())
+last_names = set(type(m).__name__ for m in last)
 
 
 class NoAbort:
@@ -55,7 +63,7 @@ spec = []
 count = 0
 for node in nodes.bfs(exprs, params.get('max_depth', None)):
     count += 1
-    for m in last:
+    for m in last + [m_ for m_ in enabled_all if type(m_).__name__ not in last_names]:
         try:
             if hasattr(m, 'filter') and not m.filter(node):
                 continue
@@ -89,6 +97,6 @@ for c, nm, x in spec:
         if len(accepted) >= 3:
             break
 json.dump(dict(proposals=n, accepted=accepted, errors=errors, mutators=sorted(names), nnodes=nodes.count_nodes(exprs),
-               enabled=[type(m).__name__ for m in last], produced=len(produced),
+               enabled=sorted(set(type(m).__name__ for m in enabled_all)), last_pass=sorted(last_names), produced=len(produced),
                missing=[[c, nm, repr(k)[:300]] for c, nm, k in missing[:5]], nmissing=len(missing),
                extra=[[c, nm, repr(k)[:300]] for c, nm, k in extra[:5]], nextra=len(extra)), open(RESULT, 'w'))
